@@ -63,7 +63,7 @@ func flatRows(c *core.Ctx, pkgRel, fn string) ([]gee.Row, *ast.FuncDecl) {
 		for _, r := range rowsOf(name) {
 			nr := r
 			nr.Guards = append(append([]string(nil), guards...), mapStrings(r.Guards, sub)...)
-			nr.Loop = append(append([]string(nil), loops...), r.Loop...)
+			nr.Loop = append(append([]string(nil), loops...), mapStrings(r.Loop, sub)...) // `range <param>` is a loop over the argument
 			nr.LoopIx = append(append([]string(nil), loopIx...), r.LoopIx...)
 			nr.Args = mapStrings(r.Args, sub)
 			if r.Kind == "call" {
